@@ -137,6 +137,7 @@ def spellings(p, rng):
     out["shiftswap"] = gen.swap_shift_inline(p).render()
     out["comments"] = gen.with_comments(p.render(comments=True), rng)
     out["macros"] = gen.with_macros(p.render(), rng)
+    out["macro_mentions"] = gen.with_macro_mentions(gen.with_macros(p.render(), rng), rng)
     out["all"] = gen.with_macros(gen.with_comments(gen.renamed(gen.swap_shift_inline(gen.to_precedes(p, rng)), rng).render(dep_style="abs"), rng), rng)
     return out
 
@@ -145,7 +146,7 @@ def check_c15(prop, tier, replay=None):
     run = Run("C15", tier)
     run.cov["rule"] = ("each generated project (dags, calendars, core, teams, limits) is rendered in 9 spellings: relative / absolute dependency "
                        "paths, consistent renaming with awkward identifiers (prefixes of each other, 'rev', case), 'precedes' on the other task, "
-                       "shift reference <-> inline hours, #, // and /* */ comments + whitespace, macros with and without argument, all combined; "
+                       "shift reference <-> inline hours, #, // and /* */ comments + whitespace, macros with and without argument, comments that quote macro definitions / calls / an old project header, all combined; "
                        "obligation: identical event digest and final dates (positions = declaration order); non-trivial = distinct (project, spelling) with dependencies")
     rng = random.Random(run.seed * 7 + 15)
     n = 8 if tier == "quick" else 150
